@@ -326,7 +326,7 @@ def inline_body(crate, body, index, depth=0, force=None):
         boff = len(blocks)
         # generic arguments
         mapping = {}
-        gnames = callee.d.get("generics") or []
+        gnames = [g for g in (callee.d.get("generics") or []) if not g.startswith("'")]
         gargs = [x for x in (fn.get("gargs") or []) if isinstance(x, int)]
         if len(gnames) == len(gargs):
             mapping = dict(zip(gnames, gargs))
